@@ -152,6 +152,42 @@ func runC02(r *Run, rng *rand.Rand, thorough bool) {
 			}
 		}
 	}
+	// committees larger than t+1, many times: the sum of k partial signatures ranges over [0, k·L), so how often the
+	// sum has to be reduced depends on the number of signers, not on the threshold (the standard verifier wants S < L)
+	{
+		shapes := [][3]int{{3, 1, 24}, {4, 1, 10}}
+		if thorough {
+			shapes = [][3]int{{3, 1, 80}, {4, 1, 40}, {4, 2, 30}, {5, 2, 40}, {6, 2, 20}}
+		}
+		for _, sh := range shapes {
+			n, t, reps := sh[0], sh[1], sh[2]
+			ks, err := genEdKeys(rng, n, t, 0, Strategy{Name: "fifo", Pick: pickFIFO})
+			if err != nil {
+				continue
+			}
+			all := combos(n, n)[0]
+			L := tss.Edwards().Params().N
+			for k := 0; k < reps; k++ {
+				m := new(big.Int).SetBytes(randBytes(rng, 32))
+				net, out := runEddsaSigning(rng, ks, all, m, -1, Strategy{Name: "fifo", Pick: pickFIFO})
+				r.Dist[fmt.Sprintf("eddsa-signing/all-%d-of-(%d,%d)", n, n, t)]++
+				checkEddsaSignature(r, "eddsa-signing/large-committee", net, out, ks.keys[0].EDDSAPub, m, -1)
+				for _, sd := range out.sigs {
+					if len(sd.Signature) == 64 {
+						le := make([]byte, 32)
+						for i := range le {
+							le[i] = sd.Signature[63-i]
+						}
+						S := new(big.Int).SetBytes(le)
+						r.Assert(S.Cmp(L) < 0, "eddsa-signing/large-committee/S-canonical", "S-below-the-group-order", func() string {
+							return fmt.Sprintf("all %d holders of a (%d,%d) key sign: S = %s >= L", n, n, t, eInt(S))
+						})
+						break
+					}
+				}
+			}
+		}
+	}
 	// directed: nonce shares steered so that the encoding of R hits the boundaries of the 32-byte form
 	// (top byte 0x00: y < 2^248 and x even; top byte 0x80: y < 2^248 and x odd; thorough: two zero top bytes)
 	if ks, err := genEdKeys(rng, 3, 1, 1, Strategy{Name: "fifo", Pick: pickFIFO}); err == nil {
